@@ -8,8 +8,10 @@ Requests
     → `<skip|ok|timeout> <last_check> <interval_instructions> <since_last> <sound:0|1>`
 * `trace <rate:16hex> <limit_ns> <t1> <t2> …`  (clock readings of the clock-reading polls, ns since `new`)
     → `<I0> (<calls> <last_check> <interval_instructions> <timed_out:0|1> <sound:0|1>) …`
-* `deliver <t|e> (<barrier:0|1> <handler>…) …`   (frames, top first; `t` = timeout, `e` = ordinary error)
-    → `caught <handler> <frames_left>` | `escaped`
+* `deliver <t|e> (<code> <handler>…) …`   (frames, top first; `t` = timeout, `e` = ordinary error;
+    code 0 = plain frame, 1 = barrier frame (entry boundary), 2 = barrier frame whose native caller
+    replaces every error by a string error)
+    → `caught <handler> <frames_left>` | `escaped timeout` | `escaped other` (what the host receives)
 -/
 import KotoVerif.Common.Proto
 import KotoVerif.Common.ValueIO
@@ -45,12 +47,13 @@ def parseFrame : Sexp → Option Frame
   | .list (b :: hs) => do
     let bb ← b.nat?
     let hs' ← hs.mapM Sexp.nat?
-    pure { catches := hs', barrier := bb == 1 }
+    pure { catches := hs', barrier := bb == 1 || bb == 2, stringifies := bb == 2 }
   | _ => none
 
 def deliveryStr : Delivery → String
   | .caught h n => s!"caught {h} {n}"
-  | .escaped => "escaped"
+  | .escaped .timeout => "escaped timeout"
+  | .escaped .other => "escaped other"
 
 def handle (line : String) : String :=
   let F := nativeTOps
